@@ -1,2 +1,157 @@
 //! Helpers other overlay crates may call (only compiled under `cfg(kani)` with `enable`).
+//! Thin public wrappers around the in-crate harness helpers.
 #![allow(dead_code)]
+use crate::collector::global_collector::verif_harness as gc;
+use crate::collector::id::verif_harness as idgen;
+use crate::collector::CollectTokenItem;
+use crate::collector::SpanId;
+use crate::collector::TraceId;
+use crate::local::local_span_stack::verif_harness as stk;
+use crate::local::local_span_stack::LocalSpanStack;
+use crate::span::verif_harness as sp;
+use crate::verif_tls as tls;
+use std::cell::RefCell;
+use std::rc::Rc;
+
+static mut STACK: Option<Rc<RefCell<LocalSpanStack>>> = None;
+
+/// Virtual thread 0 with an observed command sender, a symbolic id generator and an empty span
+/// stack of capacity 4.
+#[allow(static_mut_refs)]
+pub fn env_thread0() {
+    tls::set_current(0);
+    gc::install_observed_sender(0);
+    idgen::install_symbolic_generator();
+    unsafe {
+        STACK = Some(stk::install_stack(0, 4));
+        fastant::CLOCK = 100;
+    }
+}
+
+/// A recording span built directly: one sampled token item; a root if `collect_id` is given.
+pub fn mk_span(id: u64, trace: u128, parent: u64, collect: usize, root: bool) -> crate::Span {
+    let item = CollectTokenItem {
+        trace_id: TraceId(trace),
+        parent_id: SpanId(parent),
+        collect_id: collect,
+        is_root: root,
+        is_sampled: true,
+    };
+    sp::mk_span(id, 5, vec![item], if root { Some(collect) } else { None })
+}
+
+pub fn pushed() -> usize {
+    gc::nlog()
+}
+/// 0 StartCollect, 1 DropCollect, 2 CommitCollect, 3 SubmitSpans
+pub fn pushed_kind(i: usize) -> u8 {
+    gc::log(i).kind
+}
+/// 0 Span, 1 LocalSpansInner, 2 SharedLocalSpans
+pub fn pushed_set_kind(i: usize) -> u8 {
+    gc::log(i).set_kind
+}
+pub fn pushed_span_id(i: usize) -> u64 {
+    gc::log(i).span_id.0
+}
+pub fn pushed_token_parent(i: usize) -> Option<u64> {
+    gc::log(i).tok0.map(|t| t.parent_id.0)
+}
+pub fn pushed_nspans(i: usize) -> usize {
+    gc::log(i).nspans
+}
+
+#[allow(static_mut_refs)]
+pub fn depth() -> usize {
+    unsafe { STACK.as_ref().map(|s| stk::depth(&s.borrow())).unwrap_or(0) }
+}
+#[allow(static_mut_refs)]
+pub fn local_parent() -> Option<u64> {
+    unsafe { STACK.as_ref().and_then(|s| stk::context(&s.borrow()).2).map(|p| p.0) }
+}
+pub fn set_reporter_ready(v: bool) {
+    gc::set_reporter_ready(v);
+}
+
+/// Open a sampled local-parent scope on thread 0 whose parent span id is `id` (the scope stays
+/// open: the handle is leaked).
+#[allow(static_mut_refs)]
+pub fn open_scope(id: u64) {
+    let item = CollectTokenItem { trace_id: TraceId(1), parent_id: SpanId(id), collect_id: 0, is_root: false, is_sampled: true };
+    unsafe {
+        let h = STACK.as_ref().unwrap().borrow_mut().register_span_line(Some(vec![item]));
+        std::mem::forget(h);
+    }
+}
+
+/// Number of records in the innermost scope.
+#[allow(static_mut_refs)]
+pub fn scope_records() -> usize {
+    unsafe { STACK.as_ref().and_then(|s| stk::top_records(&s.borrow()).map(|r| r.len())).unwrap_or(0) }
+}
+
+/// (name ptr, name len, raw parent id, kind 0 span/1 event/2 properties, property count or MAX, finished)
+#[allow(static_mut_refs)]
+pub fn scope_record(i: usize) -> (usize, usize, u64, u8, usize, bool) {
+    unsafe {
+        let st = STACK.as_ref().unwrap().borrow();
+        let r = &stk::top_records(&st).unwrap()[i];
+        let kind = match r.raw_kind {
+            crate::local::raw_span::RawKind::Span => 0,
+            crate::local::raw_span::RawKind::Event => 1,
+            crate::local::raw_span::RawKind::Properties => 2,
+        };
+        (
+            r.name.as_ptr() as usize,
+            r.name.len(),
+            r.parent_id.0,
+            kind,
+            r.properties.as_ref().map(|p| p.len()).unwrap_or(usize::MAX),
+            r.end_instant != fastant::Instant::ZERO,
+        )
+    }
+}
+
+/// Name of the i-th record of the innermost scope, as bytes equal to `s`?
+#[allow(static_mut_refs)]
+pub fn scope_record_name_is(i: usize, s: &str) -> bool {
+    unsafe {
+        let st = STACK.as_ref().unwrap().borrow();
+        let r = &stk::top_records(&st).unwrap()[i];
+        let a = r.name.as_bytes();
+        let b = s.as_bytes();
+        if a.len() != b.len() {
+            return false;
+        }
+        let mut k = 0;
+        while k < a.len() {
+            if a[k] != b[k] {
+                return false;
+            }
+            k += 1;
+        }
+        true
+    }
+}
+
+/// (length, first 3 bytes, last 4 bytes) of the i-th record's name, zero padded; no loops.
+#[allow(static_mut_refs)]
+pub fn scope_record_name_probe(i: usize) -> (usize, [u8; 3], [u8; 4]) {
+    unsafe {
+        let st = STACK.as_ref().unwrap().borrow();
+        let r = &stk::top_records(&st).unwrap()[i];
+        let b = r.name.as_bytes();
+        let n = b.len();
+        let g = |k: usize| if k < n { b[k] } else { 0 };
+        let l = |k: usize| if n >= k { b[n - k] } else { 0 };
+        (n, [g(0), g(1), g(2)], [l(4), l(3), l(2), l(1)])
+    }
+}
+
+/// Virtual thread 0 whose span stack is already destroyed (thread teardown).
+pub fn env_thread0_without_stack() {
+    tls::set_current(0);
+    gc::install_observed_sender(0);
+    idgen::install_symbolic_generator();
+    stk::destroy_stack(0);
+}
